@@ -13,6 +13,7 @@ import (
 	"encoding/json"
 	"fmt"
 	"os"
+	"sort"
 	"strconv"
 	"strings"
 	"sync"
@@ -32,6 +33,7 @@ type mOp struct {
 	Key   string `json:"key"`
 	Mpart int    `json:"mpart"`
 	N     int    `json:"n"`
+	Bad   int    `json:"bad"` // send: 1 = the partitioner fails for this message; batch: position of that message (0 = none)
 	// consumer
 	P   int    `json:"p"`
 	Off int    `json:"off"`
@@ -112,6 +114,13 @@ const checkErrPrefix = "verif checker failure #"
 
 func (e *checkErr) Error() string { return checkErrPrefix + strconv.Itoa(e.id) }
 
+// partErr is what the recording partitioner returns for a message marked "bad".
+type partErr struct{ mid int }
+
+const partErrPrefix = "verif partitioner failure #"
+
+func (e *partErr) Error() string { return partErrPrefix + strconv.Itoa(e.mid) }
+
 type partCall struct{ mid, n, p int }
 
 type prodHarness struct {
@@ -122,6 +131,8 @@ type prodHarness struct {
 	asked int           // partitioner invocations so far
 	chk   map[int][]int // message id -> ids of the expectations whose checker saw it
 	cfail int           // failing-checker invocations so far
+	bad   map[int]bool  // messages for which the partitioner must fail
+	pfail int           // partitioner failures so far
 	nexp  int
 	async *AsyncProducer
 	sync  *SyncProducer
@@ -140,10 +151,22 @@ func midOf(msg *sarama.ProducerMessage) int {
 }
 
 func (p *recPartitioner) Partition(msg *sarama.ProducerMessage, n int32) (int32, error) {
-	r, err := p.inner.Partition(msg, n)
+	p.h.mu.Lock()
+	bad := p.h.bad[midOf(msg)]
+	p.h.mu.Unlock()
+	var r int32
+	var err error
+	if bad { // a partitioner that cannot place this message (the inner partitioner is not consulted)
+		r, err = -1, &partErr{midOf(msg)}
+	} else {
+		r, err = p.inner.Partition(msg, n)
+	}
 	p.h.mu.Lock()
 	p.h.order = append(p.h.order, partCall{midOf(msg), int(n), int(r)})
 	p.h.asked++
+	if bad {
+		p.h.pfail++
+	}
 	p.h.mu.Unlock()
 	select {
 	case p.h.sig <- struct{}{}:
@@ -155,12 +178,16 @@ func (p *recPartitioner) Partition(msg *sarama.ProducerMessage, n int32) (int32,
 func (p *recPartitioner) RequiresConsistency() bool { return p.inner.RequiresConsistency() }
 
 func newProdHarness(c *mCase) *prodHarness {
-	h := &prodHarness{sig: make(chan struct{}, 1024), chk: map[int][]int{}}
+	h := &prodHarness{sig: make(chan struct{}, 1024), chk: map[int][]int{}, bad: map[int]bool{}}
 	h.rep = &recReporter{sig: h.sig, argID: func(a interface{}) string {
 		// the mocks report a failing checker with err.Error(): recognise OUR checker errors by value
-		if str, ok := a.(string); ok && strings.HasPrefix(str, checkErrPrefix) {
-			if _, err := strconv.Atoi(str[len(checkErrPrefix):]); err == nil {
-				return "c" + str[len(checkErrPrefix):]
+		if str, ok := a.(string); ok {
+			for pre, tag := range map[string]string{checkErrPrefix: "c", partErrPrefix: "p"} {
+				if strings.HasPrefix(str, pre) {
+					if _, err := strconv.Atoi(str[len(pre):]); err == nil {
+						return tag + str[len(pre):]
+					}
+				}
 			}
 		}
 		if e, ok := a.(error); ok {
@@ -285,6 +312,8 @@ func errID(err error) string {
 		return "e" + strconv.Itoa(e.id)
 	case *checkErr:
 		return "c" + strconv.Itoa(e.id)
+	case *partErr:
+		return "p" + strconv.Itoa(e.mid)
 	}
 	if err == errOutOfExpectations {
 		return "noexp"
@@ -323,11 +352,11 @@ func guard(d time.Duration, fn func()) string {
 
 // handled = messages the mock has visibly started to handle: it asked the partitioner (the
 // message found an expectation) or it reported to the ErrorReporter without asking (the message
-// found none). The only other report the producer mocks make while handling a message follows a
-// failing checker of OURS, so those are subtracted (whatever their wording).
+// found none). The only other reports the producer mocks make while handling a message follow a
+// failing checker or a failing partitioner of OURS, so those are subtracted (whatever their wording).
 func (h *prodHarness) handled() int {
 	h.mu.Lock()
-	a, cf := h.asked, h.cfail
+	a, cf := h.asked, h.cfail+h.pfail
 	h.mu.Unlock()
 	h.rep.mu.Lock()
 	defer h.rep.mu.Unlock()
@@ -443,6 +472,11 @@ func syncOut(mid int, part int32, off int64, err error) []interface{} {
 
 func (h *prodHarness) send(rec *vRec, mid int, op mOp) {
 	msg := newMsg(mid, op.Topic, op.Key, op.Mpart)
+	if op.Bad == 1 {
+		h.mu.Lock()
+		h.bad[mid] = true
+		h.mu.Unlock()
+	}
 	outs := [][]interface{}{}
 	var bad string
 	if h.async != nil {
@@ -469,11 +503,11 @@ func (h *prodHarness) send(rec *vRec, mid int, op mOp) {
 		}
 	}
 	rep, txt := h.rep.take()
-	rec.Ev("send", kv{"mid": mid, "topic": op.Topic, "key": op.Key, "mpart": op.Mpart, "outs": outs,
+	rec.Ev("send", kv{"mid": mid, "topic": op.Topic, "key": op.Key, "mpart": op.Mpart, "bad": op.Bad, "outs": outs,
 		"mp": int(msg.Partition), "pcall": pc, "chk": h.chkOf(mid), "rep": rep, "reptxt": txt, "err": bad})
 }
 
-func (h *prodHarness) batch(rec *vRec, first int, c *mCase, n int) {
+func (h *prodHarness) batch(rec *vRec, first int, c *mCase, n, badPos int) {
 	msgs := make([]*sarama.ProducerMessage, n)
 	desc := [][]interface{}{}
 	for i := range msgs {
@@ -485,7 +519,14 @@ func (h *prodHarness) batch(rec *vRec, first int, c *mCase, n int) {
 			mpart = 1
 		}
 		msgs[i] = newMsg(first+i, "ta", key, mpart)
-		desc = append(desc, []interface{}{first + i, "ta", key, mpart})
+		isBad := 0
+		if i+1 == badPos {
+			isBad = 1
+			h.mu.Lock()
+			h.bad[first+i] = true
+			h.mu.Unlock()
+		}
+		desc = append(desc, []interface{}{first + i, "ta", key, mpart, isBad})
 	}
 	var err error
 	bad := guard(5*time.Second, func() { err = h.sync.SendMessages(msgs) })
@@ -516,7 +557,12 @@ func (h *prodHarness) csend(rec *vRec, ops []mOp) {
 	desc := [][]interface{}{}
 	for i, op := range ops {
 		msgs[i] = newMsg(i+1, op.Topic, op.Key, op.Mpart)
-		desc = append(desc, []interface{}{i + 1, op.Topic, op.Key, op.Mpart})
+		if op.Bad == 1 {
+			h.mu.Lock()
+			h.bad[i+1] = true
+			h.mu.Unlock()
+		}
+		desc = append(desc, []interface{}{i + 1, op.Topic, op.Key, op.Mpart, op.Bad})
 	}
 	target, n0 := h.handled()+n, 0
 	if h.async != nil {
@@ -614,7 +660,7 @@ func runProducerCase(rec *vRec, c *mCase, conc bool) {
 			}
 			rec.Ev("setparts", kv{"topic": op.Topic, "n": op.N})
 		case "batch":
-			h.batch(rec, mid+1, c, op.N)
+			h.batch(rec, mid+1, c, op.N, op.Bad)
 			mid += op.N
 		case "close":
 			h.closeMock(rec)
@@ -632,7 +678,29 @@ type consErr struct{ id int }
 
 func (e *consErr) Error() string { return "scripted consumer error " + strconv.Itoa(e.id) }
 
-const consTopic = "tc"
+// consumer slots (spec/MocksOracle.tla): topic "tc" partitions 0, 1 = slots 0, 1; topic "td"
+// partitions 0, 1 = slots 2, 3; slot 9 = ("tc", 9) is never registered.
+func slotTopic(s int) string {
+	if s == 2 || s == 3 {
+		return "td"
+	}
+	return "tc"
+}
+
+func slotPart(s int) int32 {
+	if s == 9 {
+		return 9
+	}
+	return int32(s % 2)
+}
+
+// topic metadata configurations (MetaTopics / MetaParts of the oracle)
+func metaConfig(v int) map[string][]int32 {
+	if v == 1 {
+		return map[string][]int32{"tc": {0, 1}}
+	}
+	return map[string][]int32{"tc": {0}, "td": {0, 1, 2}}
+}
 
 func consErrIDs(errs sarama.ConsumerErrors, p int) []int {
 	out := []int{}
@@ -644,7 +712,7 @@ func consErrIDs(errs sarama.ConsumerErrors, p int) []int {
 
 func consErrID(e *sarama.ConsumerError, p int) int {
 	ce, ok := e.Err.(*consErr)
-	if !ok || e.Topic != consTopic || int(e.Partition) != p {
+	if !ok || e.Topic != slotTopic(p) || e.Partition != slotPart(p) {
 		return -2
 	}
 	return ce.id
@@ -660,11 +728,13 @@ func runConsumerCase(rec *vRec, c *mCase) {
 		ret := "ok"
 		val := []interface{}{0, 0, 0, "-"}
 		errs := []int{}
+		strs := []string{}
 		p := op.P
+		topic, part := slotTopic(p), slotPart(p)
 		bad := guard(5*time.Second, func() {
 			switch op.Op {
 			case "expect":
-				mocks[p] = cons.ExpectConsumePartition(consTopic, int32(p), int64(op.Off))
+				mocks[p] = cons.ExpectConsumePartition(topic, part, int64(op.Off))
 			case "yieldmsg":
 				m := &sarama.ConsumerMessage{Value: []byte("m" + strconv.Itoa(op.Id))}
 				mocks[p].YieldMessage(m)
@@ -678,7 +748,7 @@ func runConsumerCase(rec *vRec, c *mCase) {
 					mocks[p].ExpectErrorsDrainedOnClose()
 				}
 			case "consume":
-				pc, err := cons.ConsumePartition(consTopic, int32(p), int64(op.Off))
+				pc, err := cons.ConsumePartition(topic, part, int64(op.Off))
 				switch {
 				case err == nil:
 					handles[p] = pc
@@ -733,24 +803,53 @@ func runConsumerCase(rec *vRec, c *mCase) {
 				if err := cons.Close(); err != nil {
 					ret = "other"
 				}
+			case "setmeta":
+				cons.SetTopicMetadata(metaConfig(op.Id))
+			case "topics":
+				ts, err := cons.Topics()
+				switch {
+				case err == nil:
+					strs = append(strs, ts...)
+					sort.Strings(strs)
+				case err == sarama.ErrOutOfBrokers:
+					ret = "outofbrokers"
+				default:
+					ret = "other"
+				}
+			case "partitions":
+				ps, err := cons.Partitions(op.W)
+				switch {
+				case err == nil:
+					for _, q := range ps {
+						errs = append(errs, int(q))
+					}
+				case err == sarama.ErrOutOfBrokers:
+					ret = "outofbrokers"
+				case err == sarama.ErrUnknownTopicOrPartition:
+					ret = "unknowntopic"
+				default:
+					ret = "other"
+				}
 			}
 		})
-		hwm := []int{-1, -1}
-		hwms := []int{-1, -1}
+		// read APIs after every step: PartitionConsumer.HighWaterMarkOffset() of every registered slot and
+		// the complete Consumer.HighWaterMarks() map (entry per slot, -1 = the map has no such entry)
+		hwm := []int{-1, -1, -1, -1}
+		hwms := []int{-1, -1, -1, -1}
 		if bad == "" {
 			all := cons.HighWaterMarks()
-			for q := 0; q < 2; q++ {
+			for q := 0; q < 4; q++ {
 				if m := mocks[q]; m != nil {
 					hwm[q] = int(m.HighWaterMarkOffset())
-					if v, ok := all[consTopic][int32(q)]; ok {
-						hwms[q] = int(v)
-					}
+				}
+				if v, ok := all[slotTopic(q)][slotPart(q)]; ok {
+					hwms[q] = int(v)
 				}
 			}
 		}
 		reps, txt := rep.take()
 		rec.Ev("cop", kv{"op": op.Op, "p": op.P, "off": op.Off, "w": op.W, "id": op.Id, "ret": ret, "val": val,
-			"errs": errs, "hwm": hwm, "hwms": hwms, "rep": reps, "reptxt": txt, "err": bad})
+			"errs": errs, "strs": strs, "hwm": hwm, "hwms": hwms, "rep": reps, "reptxt": txt, "err": bad})
 	}
 	rec.Ev("cend", kv{"n": len(c.Ops)})
 }
